@@ -159,6 +159,77 @@ def additive_oracle(ck, m, table, stats):
                 return
 
 
+JOINT_STAMPS = ["2024-01-29 08:00:00", "2024-01-31 23:30:00", "2024-02-01 00:10:00", "2024-02-04 12:00:00", "2024-12-30 01:00:00", "2025-01-01 05:00:00",
+                "2025-03-31 10:00:00", "2025-04-01 09:00:00", "2024-06-15 14:20:00", "2024-06-15 14:40:00", "2024-02-29 00:00:00"]
+
+
+def joint_granularity_oracle(ck, rng, stats, pairs, data=None):
+    """metrics of TWO related models (parent with the time dimension, child rows fanning out) requested with one time
+    dimension at two granularities: every (g1, g2) bucket pair occurs once, and the additive metrics summed over one column's
+    buckets equal the query at the other granularity alone - including ISO weeks that straddle a month / quarter / year end"""
+    from sidemantic import Dimension, Metric, Model, Relationship, SemanticLayer
+    layer = SemanticLayer(auto_register=False)
+    layer.add_model(Model(name="orders", table="j_orders", primary_key="id",
+                          dimensions=[Dimension(name="created", type="time", sql="created", granularity="hour"), Dimension(name="status", type="categorical")],
+                          metrics=[Metric(name="revenue", agg="sum", sql="amount"), Metric(name="n", agg="count")],
+                          relationships=[Relationship(name="items", type="one_to_many", foreign_key="order_id")]))
+    layer.add_model(Model(name="items", table="j_items", primary_key="id", dimensions=[Dimension(name="sku", type="categorical")],
+                          metrics=[Metric(name="qty", agg="sum", sql="qty"), Metric(name="lines", agg="count")],
+                          relationships=[Relationship(name="orders", type="many_to_one", foreign_key="order_id")]))
+    con = layer.conn
+    con.execute("SET TimeZone='UTC'"); con.execute("SET threads=1"); con.execute("SET disabled_optimizers='statistics_propagation'")
+    con.execute("CREATE TABLE j_orders (id BIGINT, created TIMESTAMP, status VARCHAR, amount BIGINT)")
+    con.execute("CREATE TABLE j_items (id BIGINT, order_id BIGINT, sku VARCHAR, qty BIGINT)")
+    n_orders = rng.choice([6, 9, 12])
+    orders = [(i, rng.choice(JOINT_STAMPS), rng.choice(["a", "b"]), rng.choice([10, 50, 7, 100])) for i in range(1, n_orders + 1)]
+    items, k = [], 0
+    for o in orders:
+        for _ in range(rng.choice([0, 1, 2, 3])):
+            k += 1
+            items.append((k, o[0], rng.choice(["s1", "s2"]), rng.choice([1, 2, 9])))
+    if data:
+        orders, items = [tuple(o) for o in data[0]], [tuple(i) for i in data[1]]
+    con.executemany("INSERT INTO j_orders VALUES (?, CAST(? AS TIMESTAMP), ?, ?)", orders)
+    if items:
+        con.executemany("INSERT INTO j_items VALUES (?, ?, ?, ?)", items)
+    mets = ["orders.revenue", "orders.n", "items.qty", "items.lines"]
+
+    def ask(dims):
+        sql = layer.compile(metrics=mets, dimensions=dims)
+        cur = con.execute(sql)
+        return sql, [[duck.canon_val(v) for v in r] for r in cur.fetchall()]
+
+    def total(rows, key_idx, nk):
+        out = {}
+        for r in rows:
+            acc = out.setdefault(r[key_idx], [Fraction(0)] * 4)
+            for i in range(4):
+                acc[i] += Fraction(r[nk + i] or 0)
+        return out
+    alone = {}
+    for g1, g2 in pairs:
+        case = {"orders": orders, "items": items, "granularities": [g1, g2], "metrics": mets}
+        try:
+            for g in (g1, g2):
+                if g not in alone:
+                    alone[g] = total(ask([f"orders.created__{g}"])[1], 0, 1)
+            sql, rows = ask([f"orders.created__{g1}", f"orders.created__{g2}"])
+        except Exception as e:  # noqa: BLE001
+            ck.fail_input(f"two-model query with created__{g1} and created__{g2} fails: {e!r}"[:300], case)
+            return
+        stats["joint_granularity_queries"] = stats.get("joint_granularity_queries", 0) + 1
+        keys = [(r[0], r[1]) for r in rows]
+        if len(keys) != len(set(keys)):
+            ck.fail_input(f"two-model query at {g1} and {g2}: a ({g1}, {g2}) bucket pair is returned more than once", dict(case, rows=duck.show(rows), sql=sql[:1500]))
+            return
+        for idx, g in ((0, g1), (1, g2)):
+            if total(rows, idx, 2) != alone[g]:
+                ck.fail_input(f"two-model query at {g1} and {g2}: sum/count summed over the {g} column's buckets differ from the query at {g} alone",
+                              dict(case, rolled_up={str(k): [str(x) for x in v] for k, v in total(rows, idx, 2).items()},
+                                   alone={str(k): [str(x) for x in v] for k, v in alone[g].items()}, sql=sql[:1500]))
+                return
+
+
 EXPR_DIMS = [("DATE_TRUNC('day', created) + INTERVAL 5 HOUR", lambda t: cal.trunc("day", t) + 5 * 3600),
              ("DATE_TRUNC('week', created) + INTERVAL 6 DAY", lambda t: cal.trunc("week", t) + 6 * 86400),
              ("DATE_TRUNC('month', created) + INTERVAL 14 DAY", lambda t: cal.trunc("month", t) + 14 * 86400),
@@ -285,6 +356,11 @@ def run(ck: Check):
             cases.append({"op": "c01", "model": m, "query": gen_time_query(rng, m), "table": table})
         if i % 2 == 0:
             additive_oracle(ck, m, table, stats)
+    # metrics of two related models with one time dimension at two granularities: every ordered pair, fresh data per round
+    import itertools
+    all_pairs = [(a, b) for a, b in itertools.permutations(cal.GRANS, 2)]
+    for _ in range(6 if thorough else 2):
+        joint_granularity_oracle(ck, rng, stats, all_pairs)
     send = []
     for c in cases:
         real = S.run_real(c["model"], c["table"], c["query"])
@@ -308,19 +384,22 @@ def run(ck: Check):
         "evaluations": len(stamps) * 6 + len(fn_cases) + len(cases) + stats["additive_pairs"],
         "distinct_nontrivial": len(stats["nontrivial"]) + sum(1 for r in fn_real if r["validate"] not in ([], "value_error")),
         "rule": "boundary/random timestamps x 6 granularities vs DuckDB; random reference lists (valid, misspelt, bad/extra granularity, extra dots) through validate_query and _apply_default_time_dimensions; time-dimension models (any base granularity, default_time_dimension/default_grain) x tables with month/quarter/year-straddling timestamps x queries with 0-3 granularities; additive roll-up relation for every refining pair on real rows; time dimensions defined by an expression (truncation plus offset, shifted column) requested at every granularity vs calendar arithmetic",
-        "validation_error_kinds": dict(kinds), "outcome_distribution": dict(stats["outcomes"]), "additive_pairs_checked": stats["additive_pairs"],
+        "validation_error_kinds": dict(kinds), "outcome_distribution": dict(stats["outcomes"]), "additive_pairs_checked": stats["additive_pairs"], "two_model_two_granularity_queries": stats.get("joint_granularity_queries", 0),
         "cases_inside_theorem_C01_grouped": stats.get("covered", 0), "traces_validated_against_impl": len(fn_cases) + len(cases),
         "samples": [{"metrics": fn_cases[0]["metrics"], "dims": fn_cases[0]["dims"]}, c01.strip(cases[0])],
     })
     ck.assumptions += ["DuckDB DATE_TRUNC is the engine semantics (calendar model validated against it, not proved)",
-                       "C07_rollup_additive is checked on the real rows by this run (additive_pairs_checked) and is not yet a Lean theorem"]
+                       "the additive roll-up is a theorem on the model (C07_rollup_additive_sum/_count) and is also checked on the real rows by this run (additive_pairs_checked; two models with two granularities: two_model_two_granularity_queries)"]
 
 
 def replay(ck, rp):
     r = rp["replay"]
     if "case" in r:
         return c01.replay(ck, rp)
-    if "fine" in r:
+    if "granularities" in r:
+        import random
+        joint_granularity_oracle(ck, random.Random(0), {}, [tuple(r["granularities"])], data=(r["orders"], r["items"]))
+    elif "fine" in r:
         from collections import Counter as C
         additive_oracle(ck, r["model"], r["table"], {"additive_pairs": 0})
     else:
